@@ -141,6 +141,9 @@ def st_sensitivity(ids):
         if not (os.path.exists(meta_p) and os.path.exists(patch)):
             continue
         meta = json.load(open(meta_p))
+        only = os.environ.get('VERIF_SENS_ONLY')
+        if only and not any(tok in name for tok in only.split(',')):
+            continue
         pids = [p for p in meta.get('detected_by', [meta['property']]) if p in ids]
         if not pids:
             continue
